@@ -157,9 +157,10 @@ def check_const_queries(db, rep, unit_name='SQuIDS', floors=True):
     for f in unit.functions:
         if f.get('record') != 'squids::SQuIDS' or not f.get('const'):
             continue
-        if f['qname'].split('::')[-1] not in CONST_QUERIES:
-            continue
-        n += 1
+        # every const member function is held to the rule (helpers called by the queries included);
+        # the named queries are the floor
+        if f['qname'].split('::')[-1] in CONST_QUERIES:
+            n += 1
         rep.fn(sig(f))
         bad = None
         for node in walk(f['body']):
